@@ -94,7 +94,9 @@ def variants(algo, tier):
                 ("einsum-normalize", {"init": "random", "normalize_factors": True, "tenalg": "einsum"}, 3 if q else 5)]
     elif algo == "tucker":
         out += [("svd", {"init": "svd"}, 4 if q else 8), ("random", {"init": "random"}, 4 if q else 8),
-                ("einsum-random", {"init": "random", "tenalg": "einsum"}, 4 if q else 6)]
+                ("einsum-random", {"init": "random", "tenalg": "einsum"}, 4 if q else 6),
+                ("randomized_svd-generator", {"init": "random", "svd": "randomized_svd", "random_state": "RS:3"}, 6 if q else 10),
+                ("symeig_svd", {"init": "svd", "svd": "symeig_svd"}, 4 if q else 6)]
     elif algo == "parafac2":
         out += [("random", {"init": "random", "linesearch": False}, 4 if q else 7), ("svd", {"init": "svd", "linesearch": False}, 4 if q else 7),
                 ("nn-0", {"init": "random", "linesearch": False, "nn_modes": [0]}, 3 if q else 5),
@@ -117,7 +119,9 @@ def variants(algo, tier):
         out += [("cold", {"warm": False}, 0), ("warm", {"warm": True}, 0), ("sparsity", {"warm": True, "sparsity_coefficient": 0.3}, 0),
                 ("ridge", {"warm": True, "ridge_coefficient": 0.5}, 0),
                 ("sparsity+ridge", {"warm": True, "sparsity_coefficient": 0.3, "ridge_coefficient": 0.5}, 0),
-                ("sparsity+ridge-cold", {"warm": False, "sparsity_coefficient": 0.1, "ridge_coefficient": 2.0}, 0)]
+                ("sparsity+ridge-cold", {"warm": False, "sparsity_coefficient": 0.1, "ridge_coefficient": 2.0}, 0),
+                ("nonzero_rows", {"warm": True, "nonzero_rows": True}, 0), ("nonzero_rows-cold-ridge", {"warm": False, "nonzero_rows": True, "ridge_coefficient": 0.5}, 0),
+                ("exact", {"warm": True, "exact": True}, 0)]
     return out
 
 
@@ -134,6 +138,8 @@ def shapes_for(algo, tier):
         return [(6, 3, 2), (6, 2, 2, 2)] if q else [(6, 3, 2), (8, 3, 3), (6, 2, 2, 2), (8, 2, 3, 2)]
     if algo == "hals_nnls":
         return [(3, 2), (4, 3)] if q else [(3, 2), (4, 3), (5, 4), (4, 4)]
+    if algo == "tucker":  # (9,4,4) with ranks (2,3,3): a 9 x 9 projected unfolding, larger than rank + oversampling of a randomised sketch
+        return [(4, 3), (3, 4, 2), (2, 3, 2, 2), (9, 4, 4)] if q else [(4, 3), (3, 3), (3, 4, 2), (3, 3, 3), (2, 3, 2, 2), (2, 2, 2, 2), (9, 4, 4)]
     return [(4, 3), (3, 4, 2), (2, 3, 2, 2)] if q else [(4, 3), (3, 3), (3, 4, 2), (3, 3, 3), (2, 3, 2, 2), (2, 2, 2, 2)]
 
 
@@ -142,6 +148,8 @@ def ranks_for(algo, shape, tier):
     if algo == "tensor_ring_als":
         return [[2] * (n + 1), [1] + [2] * (n - 1) + [1]]
     if algo == "tucker":
+        if tuple(shape) == (9, 4, 4):
+            return [[2, 3, 3], [1, 3, 3]]
         return [[1] * n, [2] * n, [min(2, s) if k % 2 else min(3, s) for k, s in enumerate(shape)]]
     if algo == "TuckerRegressor":
         return [[1] * (n - 1), [2] * (n - 1)]
@@ -194,6 +202,7 @@ class C07(Check):
         cfg = {}
         for k, v in case["cfg"].items():
             cfg[k] = itm.mask_tensor(shape, seed) if v == "MASK" else v
+        rs_token = cfg.get("random_state") if isinstance(cfg.get("random_state"), str) else None
         tag = f"{algo}/{case['variant']}"
         extra = {}
         if algo == "cmtf":
@@ -203,6 +212,8 @@ class C07(Check):
 
         def go(n_iter):
             c = {k: (list(v) if isinstance(v, list) else v) for k, v in cfg.items()}
+            if rs_token:  # a fresh, identically seeded generator OBJECT for every prefix run
+                c["random_state"] = np.random.RandomState(int(rs_token.split(":")[1]))
             np.random.seed(20260927)
             try:
                 return itm.run(algo, X, rank, c, n_iter, None), None
